@@ -534,80 +534,80 @@ Lemma override_covers_all : forall c, existsb (git_command_eqb (command_of c)) c
 Proof. destruct c; reflexivity. Qed.
 
 (* ------------------------------------------------------------------ witnesses of the known differences *)
-Definition wit_K1_abort : outcome_facts := (mkFacts (Some 10) (Some 10) (Some 9) false true false None true false true (Some 10) [] None None None None false [] [] [] [] [] [] None true false None 0%nat 0%nat None None true false false false false false false).
+Definition wit_K1_abort : outcome_facts := (mkFacts (Some 10) (Some 10) (Some 9) false true false None true false true (Some 10) [] None None None None false [] [] [] [] [] [] None true false None 0%nat 0%nat None None true false false false false false false false).
 Lemma refuted_K1_abort : wf_firing CRebaseAbort wit_K1_abort = true /\ Known_C13 CRebaseAbort wit_K1_abort = false /\ leaks CRebaseAbort wit_K1_abort = true /\
   s_mask (snd (hook_events (git_fires CRebaseAbort wit_K1_abort) (pre_state CRebaseAbort))) = true /\ s_mask (post_state wit_K1_abort CRebaseAbort) = false.
 Proof. repeat (split; [vm_compute; reflexivity|]). vm_compute; reflexivity. Qed.
-Definition wit_K1_ff : outcome_facts := (mkFacts (Some 10) (Some 20) (Some 9) false true false None false false false None [] None (Some 20) (Some 20) None false [] [] [] [] [] [] None true false None 0%nat 0%nat None None true false false false false false false).
+Definition wit_K1_ff : outcome_facts := (mkFacts (Some 10) (Some 20) (Some 9) false true false None false false false None [] None (Some 20) (Some 20) None false [] [] [] [] [] [] None true false None 0%nat 0%nat None None true false false false false false false false).
 Lemma refuted_K1_ff : wf_firing CRebase wit_K1_ff = true /\ Known_C13 CRebase wit_K1_ff = false /\ leaks CRebase wit_K1_ff = true /\
   s_mask (snd (hook_events (git_fires CRebase wit_K1_ff) (pre_state CRebase))) = true /\ s_mask (post_state wit_K1_ff CRebase) = false.
 Proof. repeat (split; [vm_compute; reflexivity|]). vm_compute; reflexivity. Qed.
-Definition wit_K2_drop : outcome_facts := (mkFacts (Some 12) (Some 21) (Some 9) false true false None false false false None [] None (Some 5) (Some 5) None false [(11, 21)] [11; 12] [21] [] [] [] None true false None 0%nat 0%nat None None true false false false false false false).
+Definition wit_K2_drop : outcome_facts := (mkFacts (Some 12) (Some 21) (Some 9) false true false None false false false None [] None (Some 5) (Some 5) None false [(11, 21)] [11; 12] [21] [] [] [] None true false None 0%nat 0%nat None None true false false false false false false false).
 Lemma refuted_K2_drop : wf_firing CRebaseI wit_K2_drop = true /\ Known_C13 CRebaseI wit_K2_drop = true /\
   erase_shas (effects wit_K2_drop (fst (hook_events (git_fires CRebaseI wit_K2_drop) (pre_state CRebaseI)))) <>
   erase_shas (effects wit_K2_drop (wrap_events CRebaseI wit_K2_drop)).
 Proof. split; [vm_compute; reflexivity|]. split; [vm_compute; reflexivity|]. vm_compute. intro H; discriminate H. Qed.
-Definition wit_K2_squash : outcome_facts := (mkFacts (Some 12) (Some 21) (Some 9) false true false None false false false None [] None (Some 5) (Some 5) None false [(11, 21); (12, 21)] [11; 12] [21] [] [] [] None true false None 0%nat 0%nat None None true false false false false false false).
+Definition wit_K2_squash : outcome_facts := (mkFacts (Some 12) (Some 21) (Some 9) false true false None false false false None [] None (Some 5) (Some 5) None false [(11, 21); (12, 21)] [11; 12] [21] [] [] [] None true false None 0%nat 0%nat None None true false false false false false false false).
 Lemma refuted_K2_squash : wf_firing CRebaseI wit_K2_squash = true /\ Known_C13 CRebaseI wit_K2_squash = true /\
   erase_shas (effects wit_K2_squash (fst (hook_events (git_fires CRebaseI wit_K2_squash) (pre_state CRebaseI)))) <>
   erase_shas (effects wit_K2_squash (wrap_events CRebaseI wit_K2_squash)).
 Proof. split; [vm_compute; reflexivity|]. split; [vm_compute; reflexivity|]. vm_compute. intro H; discriminate H. Qed.
-Definition wit_K3 : outcome_facts := (mkFacts (Some 10) (Some 11) (Some 10) false true true None false false false None [] None None None None false [] [] [] [] [] [] None true false None 0%nat 0%nat None None true false false false false false false).
+Definition wit_K3 : outcome_facts := (mkFacts (Some 10) (Some 11) (Some 10) false true true None false false false None [] None None None None false [] [] [] [] [] [] None true false None 0%nat 0%nat None None true false false false false false false false).
 Lemma refuted_K3 : wf_firing CCommit wit_K3 = true /\ Known_C13 CCommit wit_K3 = true /\
   erase_shas (effects wit_K3 (fst (hook_events (git_fires CCommit wit_K3) (pre_state CCommit)))) <>
   erase_shas (effects wit_K3 (wrap_events CCommit wit_K3)).
 Proof. split; [vm_compute; reflexivity|]. split; [vm_compute; reflexivity|]. vm_compute. intro H; discriminate H. Qed.
-Definition wit_K4 : outcome_facts := (mkFacts (Some 10) (Some 22) (Some 9) false true false None false false false None [] None None None None false [] [] [21; 22] [] [31; 32] [mkMade 31 21 10 true true; mkMade 32 22 21 true true] None true false None 0%nat 0%nat None None true false false false false false false).
+Definition wit_K4 : outcome_facts := (mkFacts (Some 10) (Some 22) (Some 9) false true false None false false false None [] None None None None false [] [] [21; 22] [] [31; 32] [mkMade 31 21 10 true true; mkMade 32 22 21 true true] None true false None 0%nat 0%nat None None true false false false false false false false).
 Lemma refuted_K4 : wf_firing CCherryPick wit_K4 = true /\ Known_C13 CCherryPick wit_K4 = true /\
   erase_shas (effects wit_K4 (fst (hook_events (git_fires CCherryPick wit_K4) (pre_state CCherryPick)))) <>
   erase_shas (effects wit_K4 (wrap_events CCherryPick wit_K4)).
 Proof. split; [vm_compute; reflexivity|]. split; [vm_compute; reflexivity|]. vm_compute. intro H; discriminate H. Qed.
-Definition wit_K5 : outcome_facts := (mkFacts (Some 10) (Some 11) (Some 10) false true false (Some 31) false false false None [] None None None None false [] [] [] [] [] [] None true false None 0%nat 0%nat None None true false false false false false false).
+Definition wit_K5 : outcome_facts := (mkFacts (Some 10) (Some 11) (Some 10) false true false (Some 31) false false false None [] None None None None false [] [] [] [] [] [] None true false None 0%nat 0%nat None None true false false false false false false false).
 Lemma refuted_K5 : wf_firing CCommit wit_K5 = true /\ Known_C13 CCommit wit_K5 = true /\
   erase_shas (effects wit_K5 (fst (hook_events (git_fires CCommit wit_K5) (pre_state CCommit)))) <>
   erase_shas (effects wit_K5 (wrap_events CCommit wit_K5)).
 Proof. split; [vm_compute; reflexivity|]. split; [vm_compute; reflexivity|]. vm_compute. intro H; discriminate H. Qed.
-Definition wit_K6_hard_head : outcome_facts := (mkFacts (Some 10) (Some 10) (Some 9) false true false None false false false None [] None None None None false [] [] [] [] [] [] (Some 10) true false None 0%nat 0%nat None None true false false false false false false).
+Definition wit_K6_hard_head : outcome_facts := (mkFacts (Some 10) (Some 10) (Some 9) false true false None false false false None [] None None None None false [] [] [] [] [] [] (Some 10) true false None 0%nat 0%nat None None true false false false false false false false).
 Lemma refuted_K6_hard_head : wf_firing CResetHard wit_K6_hard_head = true /\ Known_C13 CResetHard wit_K6_hard_head = true /\
   erase_shas (effects wit_K6_hard_head (fst (hook_events (git_fires CResetHard wit_K6_hard_head) (pre_state CResetHard)))) <>
   erase_shas (effects wit_K6_hard_head (wrap_events CResetHard wit_K6_hard_head)).
 Proof. split; [vm_compute; reflexivity|]. split; [vm_compute; reflexivity|]. vm_compute. intro H; discriminate H. Qed.
-Definition wit_K6_path : outcome_facts := (mkFacts (Some 10) (Some 10) (Some 9) false true false None false false false None [] None None None None false [] [] [] [] [] [] (Some 10) true false None 0%nat 0%nat None None true false false false false false false).
+Definition wit_K6_path : outcome_facts := (mkFacts (Some 10) (Some 10) (Some 9) false true false None false false false None [] None None None None false [] [] [] [] [] [] (Some 10) true false None 0%nat 0%nat None None true false false false false false false false).
 Lemma refuted_K6_path : wf_firing CResetPath wit_K6_path = true /\ Known_C13 CResetPath wit_K6_path = true /\
   erase_shas (effects wit_K6_path (fst (hook_events (git_fires CResetPath wit_K6_path) (pre_state CResetPath)))) <>
   erase_shas (effects wit_K6_path (wrap_events CResetPath wit_K6_path)).
 Proof. split; [vm_compute; reflexivity|]. split; [vm_compute; reflexivity|]. vm_compute. intro H; discriminate H. Qed.
-Definition wit_K7 : outcome_facts := (mkFacts (Some 10) (Some 10) (Some 9) false true false None false false false None [] None None None None false [] [] [] [] [] [] None true false None 0%nat 0%nat None None true false false true false false false).
+Definition wit_K7 : outcome_facts := (mkFacts (Some 10) (Some 10) (Some 9) false true false None false false false None [] None None None None false [] [] [] [] [] [] None true false None 0%nat 0%nat None None true false false true false false false false).
 Lemma refuted_K7 : wf_firing CCheckoutPath wit_K7 = true /\ Known_C13 CCheckoutPath wit_K7 = true /\
   erase_shas (effects wit_K7 (fst (hook_events (git_fires CCheckoutPath wit_K7) (pre_state CCheckoutPath)))) <>
   erase_shas (effects wit_K7 (wrap_events CCheckoutPath wit_K7)).
 Proof. split; [vm_compute; reflexivity|]. split; [vm_compute; reflexivity|]. vm_compute. intro H; discriminate H. Qed.
-Definition wit_K8_apply : outcome_facts := (mkFacts (Some 10) (Some 10) (Some 9) false true false None false false false None [] None None None None false [] [] [] [] [] [] None true true (Some 40) 1%nat 1%nat None None true false false false false false false).
+Definition wit_K8_apply : outcome_facts := (mkFacts (Some 10) (Some 10) (Some 9) false true false None false false false None [] None None None None false [] [] [] [] [] [] None true true (Some 40) 1%nat 1%nat None None true false false false false false false false).
 Lemma refuted_K8_apply : wf_firing CStashApply wit_K8_apply = true /\ Known_C13 CStashApply wit_K8_apply = true /\
   erase_shas (effects wit_K8_apply (fst (hook_events (git_fires CStashApply wit_K8_apply) (pre_state CStashApply)))) <>
   erase_shas (effects wit_K8_apply (wrap_events CStashApply wit_K8_apply)).
 Proof. split; [vm_compute; reflexivity|]. split; [vm_compute; reflexivity|]. vm_compute. intro H; discriminate H. Qed.
-Definition wit_K8_pop2 : outcome_facts := (mkFacts (Some 10) (Some 10) (Some 9) false true false None false false false None [] None None None None false [] [] [] [] [] [] None true true (Some 40) 2%nat 1%nat None None true false false false false false false).
+Definition wit_K8_pop2 : outcome_facts := (mkFacts (Some 10) (Some 10) (Some 9) false true false None false false false None [] None None None None false [] [] [] [] [] [] None true true (Some 40) 2%nat 1%nat None None true false false false false false false false).
 Lemma refuted_K8_pop2 : wf_firing CStashPop wit_K8_pop2 = true /\ Known_C13 CStashPop wit_K8_pop2 = true /\
   erase_shas (effects wit_K8_pop2 (fst (hook_events (git_fires CStashPop wit_K8_pop2) (pre_state CStashPop)))) <>
   erase_shas (effects wit_K8_pop2 (wrap_events CStashPop wit_K8_pop2)).
 Proof. split; [vm_compute; reflexivity|]. split; [vm_compute; reflexivity|]. vm_compute. intro H; discriminate H. Qed.
-Definition wit_K8_drop_dirty : outcome_facts := (mkFacts (Some 10) (Some 10) (Some 9) false true false None false false false None [] None None None None false [] [] [] [] [] [] None true true (Some 40) 1%nat 0%nat None None true false false false false false false).
+Definition wit_K8_drop_dirty : outcome_facts := (mkFacts (Some 10) (Some 10) (Some 9) false true false None false false false None [] None None None None false [] [] [] [] [] [] None true true (Some 40) 1%nat 0%nat None None true false false false false false false false).
 Lemma refuted_K8_drop_dirty : wf_firing CStashDrop wit_K8_drop_dirty = true /\ Known_C13 CStashDrop wit_K8_drop_dirty = true /\
   erase_shas (effects wit_K8_drop_dirty (fst (hook_events (git_fires CStashDrop wit_K8_drop_dirty) (pre_state CStashDrop)))) <>
   erase_shas (effects wit_K8_drop_dirty (wrap_events CStashDrop wit_K8_drop_dirty)).
 Proof. split; [vm_compute; reflexivity|]. split; [vm_compute; reflexivity|]. vm_compute. intro H; discriminate H. Qed.
-Definition wit_K9 : outcome_facts := (mkFacts (Some 10) (Some 10) (Some 9) false true false None false false false None [] None None None None false [] [] [] [] [] [] None true false None 0%nat 0%nat None (Some 50) false false false false false false false).
+Definition wit_K9 : outcome_facts := (mkFacts (Some 10) (Some 10) (Some 9) false true false None false false false None [] None None None None false [] [] [] [] [] [] None true false None 0%nat 0%nat None (Some 50) false false false false false false false false).
 Lemma refuted_K9 : wf_firing CMergeSquash wit_K9 = true /\ Known_C13 CMergeSquash wit_K9 = true /\
   erase_shas (effects wit_K9 (fst (hook_events (git_fires CMergeSquash wit_K9) (pre_state CMergeSquash)))) <>
   erase_shas (effects wit_K9 (wrap_events CMergeSquash wit_K9)).
 Proof. split; [vm_compute; reflexivity|]. split; [vm_compute; reflexivity|]. vm_compute. intro H; discriminate H. Qed.
-Definition wit_K10 : outcome_facts := (mkFacts (Some 12) (Some 22) (Some 9) false true false None false false false None [] None (Some 5) (Some 5) None false [(11, 21); (12, 22)] [11; 12] [21; 22] [] [] [] None true false None 0%nat 0%nat None None true true false false false false false).
+Definition wit_K10 : outcome_facts := (mkFacts (Some 12) (Some 22) (Some 9) false true false None false false false None [] None (Some 5) (Some 5) None false [(11, 21); (12, 22)] [11; 12] [21; 22] [] [] [] None true false None 0%nat 0%nat None None true true false false false false false false).
 Lemma refuted_K10 : wf_firing CRebase wit_K10 = true /\ Known_C13 CRebase wit_K10 = true /\
   erase_shas (effects wit_K10 (fst (hook_events (git_fires CRebase wit_K10) (pre_state CRebase)))) <>
   erase_shas (effects wit_K10 (wrap_events CRebase wit_K10)).
 Proof. split; [vm_compute; reflexivity|]. split; [vm_compute; reflexivity|]. vm_compute. intro H; discriminate H. Qed.
-Definition wit_K11 : outcome_facts := (mkFacts (Some 10) (Some 9) (Some 9) false true false None false false false None [] None None None None false [] [] [] [] [] [] (Some 9) true true None 0%nat 0%nat None None true false true false false false false).
+Definition wit_K11 : outcome_facts := (mkFacts (Some 10) (Some 9) (Some 9) false true false None false false false None [] None None None None false [] [] [] [] [] [] (Some 9) true true None 0%nat 0%nat None None true false true false false false false false).
 Lemma refuted_K11 : wf_firing CResetSoft wit_K11 = true /\ Known_C13 CResetSoft wit_K11 = true /\
   erase_shas (effects wit_K11 (fst (hook_events (git_fires CResetSoft wit_K11) (pre_state CResetSoft)))) <>
   erase_shas (effects wit_K11 (wrap_events CResetSoft wit_K11)).
@@ -625,7 +625,7 @@ Proof.
 Qed.
 
 (* the leak makes the next command invisible: a fast-forward rebase followed by a commit *)
-Definition wit_commit_after : outcome_facts := (mkFacts (Some 20) (Some 21) (Some 20) false true false None false false false None [] None None None None false [] [] [] [] [] [] None true false None 0%nat 0%nat None None true false false false false false false).
+Definition wit_commit_after : outcome_facts := (mkFacts (Some 20) (Some 21) (Some 20) false true false None false false false None [] None None None None false [] [] [] [] [] [] None true false None 0%nat 0%nat None None true false false false false false false false).
 Theorem sequences_leak_refuted :
   let cmds := [(CRebase, wit_K1_ff); (CCommit, wit_commit_after)] in
   Forall (fun x => wf_firing (fst x) (snd x) = true /\ Known_C13 (fst x) (snd x) = false) cmds /\
@@ -638,15 +638,15 @@ Proof.
 Qed.
 
 (* non-vacuity: classes where both translations produce the same non-empty effects *)
-Definition wit_rebase2 : outcome_facts := (mkFacts (Some 12) (Some 22) (Some 9) false true false None false false false None [] None (Some 5) (Some 5) None false [(11, 21); (12, 22)] [11; 12] [21; 22] [] [] [] None true false None 0%nat 0%nat None None true false false false false false false).
+Definition wit_rebase2 : outcome_facts := (mkFacts (Some 12) (Some 22) (Some 9) false true false None false false false None [] None (Some 5) (Some 5) None false [(11, 21); (12, 22)] [11; 12] [21; 22] [] [] [] None true false None 0%nat 0%nat None None true false false false false false false false).
 Example nonvacuous_rebase : wf_firing CRebase wit_rebase2 = true /\ Known_C13 CRebase wit_rebase2 = false /\
   effects wit_rebase2 (wrap_events CRebase wit_rebase2) = [ERebaseComplete 12 22 false [11; 12] [21; 22]] /\
   effects wit_rebase2 (fst (hook_events (git_fires CRebase wit_rebase2) init)) = [ERebaseComplete 12 22 false [11; 12] [21; 22]].
 Proof. repeat split; vm_compute; reflexivity. Qed.
 
-Definition wit_amend : outcome_facts := (mkFacts (Some 10) (Some 11) (Some 9) false true false None false false false None [] None None None None false [] [] [] [] [] [] None true false None 0%nat 0%nat None None true false false false false false false).
+Definition wit_amend : outcome_facts := (mkFacts (Some 10) (Some 11) (Some 9) false true false None false false false None [] None None None None false [] [] [] [] [] [] None true false None 0%nat 0%nat None None true false false false false false false false).
 Example nonvacuous_sequence :
-  let cmds := [(CCommit, wit_commit_after); (CCommitAmend, (mkFacts (Some 21) (Some 23) (Some 20) false true false None false false false None [] None None None None false [] [] [] [] [] [] None true false None 0%nat 0%nat None None true false false false false false false)); (CRebaseI, (mkFacts (Some 23) (Some 33) (Some 9) false true false None false false false None [] None (Some 5) (Some 5) None false [(23, 33)] [23] [33] [] [] [] None true false None 0%nat 0%nat None None true false false false false false false))] in
+  let cmds := [(CCommit, wit_commit_after); (CCommitAmend, (mkFacts (Some 21) (Some 23) (Some 20) false true false None false false false None [] None None None None false [] [] [] [] [] [] None true false None 0%nat 0%nat None None true false false false false false false false)); (CRebaseI, (mkFacts (Some 23) (Some 33) (Some 9) false true false None false false false None [] None (Some 5) (Some 5) None false [(23, 33)] [23] [33] [] [] [] None true false None 0%nat 0%nat None None true false false false false false false false))] in
   chained init cmds /\ Forall agreeing cmds /\
   erase_shas (run_wrap cmds) = [SPreCommitCheckpoint; SCommit true; SPreCommitCheckpoint; SCommitAmend; SRebaseComplete false 1 1].
 Proof.
@@ -657,14 +657,14 @@ Qed.
 
 (* ------------------------------------------------------------------ pull --rebase with pending attribution *)
 (* K12: every local commit is skipped as already upstream (noop), an untracked agent file is pending, no autostash *)
-Definition wit_K12 : outcome_facts := (mkFacts (Some 10) (Some 20) (Some 9) false true false None false false false None [] None (Some 20) (Some 20) None false [] [10] [] [] [] [] None true false None 0%nat 0%nat None None true true false false false false false).
+Definition wit_K12 : outcome_facts := (mkFacts (Some 10) (Some 20) (Some 9) false true false None false false false None [] None (Some 20) (Some 20) None false [] [10] [] [] [] [] None true false None 0%nat 0%nat None None true true false false false false false false).
 Lemma refuted_K12 : wf_firing CPullRebase wit_K12 = true /\ Known_C13 CPullRebase wit_K12 = true /\
   erase_shas (effects wit_K12 (fst (hook_events (git_fires CPullRebase wit_K12) (pre_state CPullRebase)))) <>
   erase_shas (effects wit_K12 (wrap_events CPullRebase wit_K12)).
 Proof. split; [vm_compute; reflexivity|]. split; [vm_compute; reflexivity|]. vm_compute. intro H; discriminate H. Qed.
 
 (* the same pull with --autostash: both modes carry the pending attribution to the new HEAD, on the noop exit ... *)
-Definition wit_pull_noop_autostash : outcome_facts := (mkFacts (Some 10) (Some 20) (Some 9) false true false None false false false None [] None (Some 20) (Some 20) None false [] [10] [] [] [] [] None true false None 0%nat 0%nat None None true true false false false true false).
+Definition wit_pull_noop_autostash : outcome_facts := (mkFacts (Some 10) (Some 20) (Some 9) false true false None false false false None [] None (Some 20) (Some 20) None false [] [10] [] [] [] [] None true false None 0%nat 0%nat None None true true false false false true false false).
 Example pull_noop_autostash_agrees :
   wf_firing CPullRebase wit_pull_noop_autostash = true /\ Known_C13 CPullRebase wit_pull_noop_autostash = false /\
   effects wit_pull_noop_autostash (fst (hook_events (git_fires CPullRebase wit_pull_noop_autostash) init)) = [ERenameWorkingLog 10 20] /\
@@ -672,7 +672,7 @@ Example pull_noop_autostash_agrees :
 Proof. repeat split; vm_compute; reflexivity. Qed.
 
 (* ... and on the exit that rewrites commits *)
-Definition wit_pull_real_autostash : outcome_facts := (mkFacts (Some 10) (Some 21) (Some 9) false true false None false false false None [] None (Some 20) (Some 20) None false [(10, 21)] [10] [21] [] [] [] None true false None 0%nat 0%nat None None true true false false false true false).
+Definition wit_pull_real_autostash : outcome_facts := (mkFacts (Some 10) (Some 21) (Some 9) false true false None false false false None [] None (Some 20) (Some 20) None false [(10, 21)] [10] [21] [] [] [] None true false None 0%nat 0%nat None None true true false false false true false false).
 Example pull_real_autostash_agrees :
   wf_firing CPullRebase wit_pull_real_autostash = true /\ Known_C13 CPullRebase wit_pull_real_autostash = false /\
   effects wit_pull_real_autostash (fst (hook_events (git_fires CPullRebase wit_pull_real_autostash) init)) =
@@ -680,3 +680,40 @@ Example pull_real_autostash_agrees :
   effects wit_pull_real_autostash (wrap_events CPullRebase wit_pull_real_autostash) =
     [ERenameWorkingLog 10 21; ERebaseComplete 10 21 false [10] [21]].
 Proof. repeat split; vm_compute; reflexivity. Qed.
+
+(* ------------------------------------------------------------------ the cherry_pick_hook_state file *)
+(* an ordinary commit (no rebase, no cherry-pick in progress) from ANY unmasked side state: the translations agree and
+   the cherry-pick state file is gone afterwards — the ordinary pre-commit arm clears a left-over file *)
+Lemma commit_from_any_state : forall f st, wf_firing CCommit f = true -> Known_C13 CCommit f = false -> s_mask st = false ->
+  effects f (fst (hook_events (git_fires CCommit f) st)) = effects f (wrap_events CCommit f) /\
+  s_cp (snd (hook_events (git_fires CCommit f) st)) = None /\ s_mask (snd (hook_events (git_fires CCommit f) st)) = false.
+Proof.
+  intros f st Hwf HK Hm. destruct st as [m pl sb0 cp]. cbn in Hm. subst m. facts f.
+  unfold wf_firing, Known_C13 in *. unfold_classes. split; [|split]; crush.
+Qed.
+
+Lemma amend_from_any_state : forall f st, wf_firing CCommitAmend f = true -> Known_C13 CCommitAmend f = false -> s_mask st = false ->
+  effects f (fst (hook_events (git_fires CCommitAmend f) st)) = effects f (wrap_events CCommitAmend f) /\
+  s_cp (snd (hook_events (git_fires CCommitAmend f) st)) = None.
+Proof.
+  intros f st Hwf HK Hm. destruct st as [m pl sb0 cp]. cbn in Hm. subst m. facts f.
+  unfold wf_firing, Known_C13 in *. unfold_classes. split; crush.
+Qed.
+
+(* a commit attempt during a stopped cherry-pick that git aborts after the pre-commit hook leaves the file behind *)
+Definition wit_cp_commit_aborted : outcome_facts := (mkFacts (Some 10) (Some 10) (Some 9) false false false (Some 31) false false false None [] None None None None false [] [] [] [] [] [] None true false None 0%nat 0%nat None None true false false false false false true false).
+Lemma commit_attempt_leaves_cp_state :
+  wf_firing CCommit wit_cp_commit_aborted = true /\
+  s_cp (snd (hook_events (git_fires CCommit wit_cp_commit_aborted) init)) = Some (31, 10).
+Proof. split; vm_compute; reflexivity. Qed.
+
+(* ... and after `cherry-pick --abort` (no hook fires) the next ordinary commit on that HEAD is still recorded as a commit *)
+Definition wit_cp_abort_after : outcome_facts := (mkFacts (Some 10) (Some 10) (Some 9) false true false None true false true (Some 10) [] None None None None false [] [] [] [] [] [] None true false None 0%nat 0%nat None None true false false false false false false false).
+Definition wit_commit_after_abandoned : outcome_facts := (mkFacts (Some 10) (Some 11) (Some 10) false true false None false false false None [] None None None None false [] [] [] [] [] [] None true false None 0%nat 0%nat None None true false false false false false false false).
+Lemma abandoned_cherry_pick_sequence :
+  let cmds := [(CCommit, wit_cp_commit_aborted); (CCherryPickAbort, wit_cp_abort_after); (CCommit, wit_commit_after_abandoned)] in
+  Forall (fun x => wf_firing (fst x) (snd x) = true) cmds /\
+  skipn 1 (fst (run_hooks cmds init)) = [ECommit (Some 10) 11] /\
+  run_wrap [(CCommit, wit_commit_after_abandoned)] = [EPreCommitCheckpoint; ECommit (Some 10) 11] /\
+  snd (run_hooks cmds init) = init.
+Proof. cbn zeta. split; [repeat constructor; vm_compute; reflexivity|]. repeat split; vm_compute; reflexivity. Qed.
